@@ -199,4 +199,29 @@ theorem index_shift_sq_le' (a b e : V2) (hd : det2 a b ≠ 0)
     rw [det2_swap a e, det2_swap a b, neg_div_neg_eq]
   rw [e1]; exact this
 
+/-- index shift for any regular lattice with `‖a‖²‖b‖² ≤ κ det(a, b)²` (`κ = 1/sin²` of the angle) -/
+theorem index_shift_sq_le_kappa (a b e : V2) (kappa : ℚ) (hd : det2 a b ≠ 0)
+    (hk : norm2 a * norm2 b ≤ kappa * det2 a b ^ 2) :
+    (det2 e b / det2 a b) ^ 2 * norm2 a ≤ kappa * norm2 e ∧
+    (det2 a e / det2 a b) ^ 2 * norm2 b ≤ kappa * norm2 e := by
+  have hpos : 0 < det2 a b ^ 2 := by positivity
+  have hna := norm2_nonneg a
+  have hnb := norm2_nonneg b
+  have hne := norm2_nonneg e
+  have he1 := det2_sq_le e b
+  have he2 : det2 a e ^ 2 ≤ norm2 e * norm2 a := by
+    have := det2_sq_le e a
+    rw [det2_swap a e]; rw [neg_sq]; exact this
+  constructor
+  · rw [div_pow, div_mul_eq_mul_div, div_le_iff₀ hpos]
+    calc det2 e b ^ 2 * norm2 a ≤ norm2 e * norm2 b * norm2 a := mul_le_mul_of_nonneg_right he1 hna
+      _ = norm2 e * (norm2 a * norm2 b) := by ring
+      _ ≤ norm2 e * (kappa * det2 a b ^ 2) := mul_le_mul_of_nonneg_left hk hne
+      _ = kappa * norm2 e * det2 a b ^ 2 := by ring
+  · rw [div_pow, div_mul_eq_mul_div, div_le_iff₀ hpos]
+    calc det2 a e ^ 2 * norm2 b ≤ norm2 e * norm2 a * norm2 b := mul_le_mul_of_nonneg_right he2 hnb
+      _ = norm2 e * (norm2 a * norm2 b) := by ring
+      _ ≤ norm2 e * (kappa * det2 a b ^ 2) := mul_le_mul_of_nonneg_left hk hne
+      _ = kappa * norm2 e * det2 a b ^ 2 := by ring
+
 end Model
